@@ -459,5 +459,5 @@ def run(ctx):
 MANIFEST_ENTRY = {
     "technique": "static analysis: MIR taint of every string reaching the embedded script (constant, identifier or escaped) in the ssr and hydrate configurations, escaper decision table against the JS-in-<script> grammar, MIR path summary of RegisterCtx::register (unit's own locale, id and strings, only with a context), single-writer check of the registry (only register takes mutable access to the guarded map; serialising it leaves it intact), who-may-register call-graph check, generated get_translations template; MIR path / dominance clauses (every used unit registers unconditionally, the script is emitted on every path, the registry is provided before the children are built); abstract evaluation of create_namespaces_types with the unit-id enum read back (as_str = the namespace's configured name, Deserialize its inverse); MIR who-creates-a-registry / who-embeds-the-script; template rule: every generated table accessor only forwards to its own unit's get_translations(); C17.R5: the per-locale generators evaluated with dynamic_load + ssr and read back - every arm reads (= registers) its own locale's table first, on every call, also for a value without literal text; the generated Display constructor reads no table",
     "level_text": "Structural: every byte sequence that can reach the embedded <script> is classified at its append site for all inputs; the escaper's table is compared with what a JS string inside a script element requires; registration is shown reachable only from the generated accessor of a unit. The script is never built or parsed.",
-    "level_note": "Trusted: identifiers need no escaping; browser/JS semantics. Not decided: leptos inner_html handling, client decoding.",
+    "level_note": "Trusted: identifiers need no escaping; browser/JS semantics. Not decided: leptos inner_html handling, client decoding. Known and undecided (DESIGN 11.17, hunts/C17): translation units first used behind a pending <Suspense> are not embedded.",
 }
